@@ -287,6 +287,9 @@ func (s *Sim) onApproval(m *Model, t *TxTrace, approver common.Address) {
 		r.Fail("C33", "request-not-consumed:"+st.Op, "%v took effect but its request is still pending afterwards", st)
 	}
 	r.Probe("approval_took_effect:" + st.Op)
+	if st.Op == "approvecand" && int(abs(st.Arg(0)))%(s.NVal+nCands) < s.NVal {
+		r.Probe("returning_member_approved")
+	}
 	// effect equals the approved request (C35)
 	id := ChainID(st.Arg(0))
 	switch st.Op {
